@@ -196,7 +196,7 @@ Proof.
     pose proof (call_fn_inv f (e_args e) _ I1) as I2.
     assert (qf : qfn f) by (apply (q (e_name e) f); apply (take_key_some _ _ _ _ T)).
     destruct (call_quiet f (e_args e) (popped e r o bad ev' s) qf) as [rg E].
-    destruct (call_fn f (e_args e) (popped e r o bad ev' s)) as [s1 x]. simpl in E, I2. subst s1.
+    destruct (call_fn f (e_args e) (popped e r o bad ev' s)) as [s1 x]. rewrite ?after_call_never. simpl in E, I2. subst s1.
     set (s1 := log_call (CallRec (now (popped e r o bad ev' s)) rg (e_args e)) (popped e r o bad ev' s)) in *.
     assert (q1 : Q s1).
     { eapply Q_sub; [|exact q]. simpl. intros kf Hin.
@@ -273,7 +273,7 @@ Proof.
   destruct (take_key (e_name e) (events s)) as [[f ev']|] eqn:T; auto.
   assert (qf : qfn f) by (apply (q (e_name e) f); apply (take_key_some _ _ _ _ T)).
   destruct (call_quiet f (e_args e) (popped e r o bad ev' s) qf) as [rg E].
-  destruct (call_fn f (e_args e) (popped e r o bad ev' s)) as [s1 x]. simpl in E. subst s1.
+  destruct (call_fn f (e_args e) (popped e r o bad ev' s)) as [s1 x]. rewrite ?after_call_never. simpl in E. subst s1.
   apply IH; auto. eapply Q_sub; [|exact q]. simpl. intros kf Hin.
   eapply Permutation_in; [apply Permutation_sym; apply (take_key_perm _ _ _ _ T)|right; exact Hin].
 Qed.
@@ -301,7 +301,7 @@ Proof.
   assert (qf : qfn f) by (apply (q (e_name e) f); apply (take_key_some _ _ _ _ T)).
   pose proof (call_fn_inv f (e_args e) _ (popped_inv _ _ _ _ _ _ _ I PM D T)) as I2.
   destruct (call_quiet f (e_args e) (popped e r o bad ev' s) qf) as [rg E].
-  destruct (call_fn f (e_args e) (popped e r o bad ev' s)) as [s1 x]. simpl in E, I2. subst s1.
+  destruct (call_fn f (e_args e) (popped e r o bad ev' s)) as [s1 x]. rewrite ?after_call_never. simpl in E, I2. subst s1.
   apply IHk; auto. eapply Q_sub; [|exact q]. simpl. intros kf Hin.
   eapply Permutation_in; [apply Permutation_sym; apply (take_key_perm _ _ _ _ T)|right; exact Hin].
 Qed.
